@@ -89,10 +89,12 @@ theorem C12_overwrite_matches_fresh (env : Env) (r : Run) (fs : FS)
     ∀ p ∈ r.paths, FS.agreeAt (hasSetMode r.filePPs) (runRun env r fs).fs (runRun env r FS.empty).fs p :=
   C12_overwrite_independent_of_prior_state env r fs FS.empty h hok
 
-/-- … and the mode is the requested one: the permission bits of the last `SetFileMode`. -/
+/-- … and the mode is the requested one: `SetFileMode fm` is the last post-processor (that is where the CLI
+puts it), so it wins over whatever mode the external programs before it left behind — a program may edit in
+place, replace the file by a new inode with another mode, or `chmod` it. -/
 theorem C12_overwrite_requested_mode (env : Env) (r : Run) (fs : FS) (fm : Nat)
     (h : r.allowOverwrite = true) (hok : (runRun env r fs).err = none)
-    (hfm : lastSetMode r.filePPs = some fm) :
+    (hfm : requestedMode r.filePPs = some fm) :
     ∀ p ∈ r.paths, ∃ f, (runRun env r fs).fs p = some f ∧ f.mode = permBits fm := by
   unfold runRun at hok ⊢; rw [h] at hok ⊢
   intro p hp
@@ -201,7 +203,7 @@ theorem C12_history_overwrite (env : Env) (hist : List Run) (fs₀ : FS) :
     ∀ s ∈ runHistory env hist fs₀, s.2.1.allowOverwrite = true → s.2.2.err = none →
       (runRun env s.2.1 FS.empty).err = none ∧
       (∀ p ∈ s.2.1.paths, FS.agreeAt (hasSetMode s.2.1.filePPs) s.2.2.fs (runRun env s.2.1 FS.empty).fs p) ∧
-      (∀ fm, lastSetMode s.2.1.filePPs = some fm →
+      (∀ fm, requestedMode s.2.1.filePPs = some fm →
         ∀ p ∈ s.2.1.paths, ∃ f, s.2.2.fs p = some f ∧ f.mode = permBits fm) ∧
       (∀ p, p ∉ s.2.1.paths → s.2.2.fs p = s.1 p) ∧
       (∀ op ∈ s.2.2.ops, op.isDenied = false) := by
@@ -249,7 +251,7 @@ def exFS : FS :=
   ((FS.empty.set "t/A.h" ⟨"old A", 0o444⟩).set "README" ⟨"keep", 0o400⟩).set "t/B.h" ⟨"old B", 0⟩
 
 def exRun (allow : Bool) : Run :=
-  ⟨allow, [.edit (fun c => some (c ++ "!")), .setMode 0o100444],
+  ⟨allow, [.edit (fun c => some (c ++ "!", some 0o600)), .setMode 0o100444],
    [⟨"s/ser.h", "S", true, none⟩, ⟨"t/A.h", "A", true, none⟩, ⟨"t/B.h", "B", true, none⟩]⟩
 
 /-- Overwriting: succeeds over the read-only leftovers, new content, requested mode, foreign file intact. -/
@@ -259,7 +261,7 @@ example :
     (runRun exEnv (exRun true) exFS).fs "t/B.h" = some ⟨"B!", 0o444⟩ ∧
     (runRun exEnv (exRun true) exFS).fs "README" = some ⟨"keep", 0o400⟩ ∧
     (runRun exEnv (exRun true) exFS).ops.take 4 =
-      [.mkdirs "s/ser.h", .openW "s/ser.h", .exec "s/ser.h" 0, .chmod "s/ser.h" 0o444] ∧
+      [.mkdirs "s/ser.h", .openW "s/ser.h", .exec "s/ser.h" 0 (some 0o600), .chmod "s/ser.h" 0o444] ∧
     ((runRun exEnv (exRun true) exFS).ops.drop 4).take 3 =
       [.chmod "t/A.h" 0o664, .mkdirs "t/A.h", .openW "t/A.h"] := by
   decide
@@ -294,12 +296,23 @@ example : (writeFileNoChmod exEnv true [] ⟨"t/A.h", "A", true, none⟩ exFS).e
 /-- A failing external program ends the run; earlier files stay written, the failing file holds the rendered
 content with the opened mode (no `SetFileMode` yet), later files are not generated. -/
 example :
-    let r : Run := ⟨true, [.edit (fun c => if c = "A" then none else some c), .setMode 0o444],
+    let r : Run := ⟨true, [.edit (fun c => if c = "A" then none else some (c, none)), .setMode 0o444],
       [⟨"s", "S", true, none⟩, ⟨"a", "A", true, none⟩, ⟨"b", "B", true, none⟩]⟩
     (runRun exEnv r FS.empty).err = some (.pp "a" 0) ∧
     (runRun exEnv r FS.empty).fs "s" = some ⟨"S", 0o444⟩ ∧
     (runRun exEnv r FS.empty).fs "a" = some ⟨"A", 0o644⟩ ∧
     (runRun exEnv r FS.empty).fs "b" = none := by decide
+
+/-- Why `SetFileMode` has to come last (`requestedMode`): the same two post-processors in the other order, with a
+program that replaces the file (temp file + rename: a new inode with mode 0o600) — the requested 0o444 is lost.
+With `SetFileMode` last the requested mode holds over the very same program. -/
+example :
+    let prog : FilePP := .edit (fun c => some (c ++ "!", some 0o600))
+    let ws : List Write := [⟨"a", "A", true, none⟩]
+    requestedMode [.setMode 0o444, prog] = none ∧
+    (runRun exEnv ⟨true, [.setMode 0o444, prog], ws⟩ exFS).fs "a" = some ⟨"A!", 0o600⟩ ∧
+    requestedMode [prog, .setMode 0o444] = some 0o444 ∧
+    (runRun exEnv ⟨true, [prog, .setMode 0o444], ws⟩ exFS).fs "a" = some ⟨"A!", 0o444⟩ := by decide
 
 /-- A history: generate, regenerate with another mode, try `--no-overwrite` (fails, nothing changes), regenerate. -/
 example :
